@@ -1,8 +1,10 @@
 #!/bin/sh
-# tools/run_all.sh <tier> <seed>  - runs every registered check once; prints one summary line per check
+# tools/run_all.sh <tier> <seed> [ids...]  - runs every registered check (or the listed ones, e.g. 01 09) once; one summary line per check
 tier="${1:-quick}"; seed="${2:-0}"
+[ $# -ge 2 ] && shift 2 || shift $#
+ids="${*:-01 02 03 04 05 06 07 08 09 10 11 12 13 14 15 16 17 18 19 20}"
 cd "$(dirname "$0")/.." || exit 2
-for i in 01 02 03 04 05 06 07 08 09 10 11 12 13 14 15 16 17 18 19 20; do
+for i in $ids; do
   start=$(date +%s)
   out=$(./check C$i --tier "$tier" --seed "$seed" 2>&1)
   rc=$?
